@@ -21,7 +21,8 @@ Definition f2_better : list ltree :=
 
 Lemma f2_witness :
   rose_of_arrays f2_arrays f2_genotypes = Ok f2_roots /\
-  c_map_mutations f2_arrays f2_genotypes None = Ok (0, [(2, -1, 1%N); (1, -1, 1%N)]) /\
+  c_map_mutations_gen false f2_arrays f2_genotypes None = Ok (0, [(2, -1, 1%N); (1, -1, 1%N)]) /\
+  c_map_mutations_gen true f2_arrays f2_genotypes None = Ok (0, [(3, -1, 1%N)]) /\
   mm_rose 2 f2_roots None = Some (0%N, [(2, -1, 1%N); (1, -1, 1%N)]) /\
   forallb (obs_lt 2) f2_roots = true /\ nodupb (forest_ids f2_roots) = true /\
   forallb no_internal_missing f2_roots = false /\
@@ -60,5 +61,6 @@ Qed.
 
 Lemma f2u_witness :
   rose_of_arrays f2u_arrays [0; 1; -1] = Ok f2u_roots /\
-  c_map_mutations f2u_arrays [0; 1; -1] None = Ok (0, [(1, -1, 1%N)]).
-Proof. vm_compute. split; reflexivity. Qed.
+  c_map_mutations_gen false f2u_arrays [0; 1; -1] None = Ok (0, [(1, -1, 1%N)]) /\
+  c_map_mutations_gen true f2u_arrays [0; 1; -1] None = Ok (0, [(2, -1, 1%N)]).
+Proof. vm_compute. repeat split; reflexivity. Qed.
